@@ -122,6 +122,13 @@ def make_exact(rng):
         b1, _ = gen_bars(rng); b2, _ = gen_bars(rng)
         s = scale_of(b1) / scale_of(b2)
         b2 = b2 * s
+        if rng.random() < 0.3:
+            # the two diagrams share their longest bars: the top depths of the difference vanish identically, deeper ones do not
+            order = np.argsort(-(b1[:, 1] - b1[:, 0]))
+            keep = b1[order[: max(1, len(b1) // 2)]]
+            extra = b1[order[len(keep):]] + rng.integers(-1, 2, (len(b1) - len(keep), 2)) * 0.25 * scale_of(b1) / 8
+            extra = extra[extra[:, 1] > extra[:, 0]] if len(extra) else extra
+            b2 = np.vstack([keep, extra]) if len(extra) else np.vstack([keep, keep[:1] * 0.5 + 0.25 * keep[:1, ::-1]])
         P1, P2 = PLE(dgms=[b1], hom_deg=0), PLE(dgms=[b2], hom_deg=0)
         if style == "difference":
             return P1 - P2, style, {"b1": b1, "b2": b2}
